@@ -18,6 +18,7 @@ type Val struct {
 	Fn  *ssa.Function // statically known function value
 	Cl  *ssa.MakeClosure
 	Bnd []Val // closure bindings
+	Alts []PAlt // guarded alternatives of a pointer value (see alts.go)
 }
 
 const (
@@ -88,14 +89,18 @@ type State struct {
 	ptrs   map[*ssa.Alloc]Val  // cells currently holding a structural pointer
 	poison map[*ssa.Alloc]bool // pointer cells whose content differs between merged paths
 	hid    int                 // havoc epoch: heaps absent from `heaps` have the default value of this epoch
+	hrefs  map[*ssa.Alloc]string // escaping local variables: the heap object that holds them
 }
 
 func newState() *State {
-	return &State{cells: map[*ssa.Alloc]string{}, heaps: map[string]string{}, ptrs: map[*ssa.Alloc]Val{}, poison: map[*ssa.Alloc]bool{}}
+	return &State{cells: map[*ssa.Alloc]string{}, heaps: map[string]string{}, ptrs: map[*ssa.Alloc]Val{}, poison: map[*ssa.Alloc]bool{}, hrefs: map[*ssa.Alloc]string{}}
 }
 
 func (s *State) clone() *State {
-	n := &State{cells: make(map[*ssa.Alloc]string, len(s.cells)), heaps: make(map[string]string, len(s.heaps)), ptrs: map[*ssa.Alloc]Val{}, poison: map[*ssa.Alloc]bool{}}
+	n := &State{cells: make(map[*ssa.Alloc]string, len(s.cells)), heaps: make(map[string]string, len(s.heaps)), ptrs: map[*ssa.Alloc]Val{}, poison: map[*ssa.Alloc]bool{}, hrefs: map[*ssa.Alloc]string{}}
+	for k, v := range s.hrefs {
+		n.hrefs[k] = v
+	}
 	for k, v := range s.ptrs {
 		n.ptrs[k] = v
 	}
@@ -145,8 +150,40 @@ func (c *Ctx) defaultHeap(hid int, name, sort string) string {
 		c.hmCache[key] = m
 		return m
 	}
-	c.decl("heap:"+key, fmt.Sprintf("(declare-const %s %s)", key, sort))
+	if !c.declSet["heap:"+key] {
+		c.decl("heap:"+key, fmt.Sprintf("(declare-const %s %s)", key, sort))
+		if hid == 0 {
+			c.closedHeapAxiom(name, key)
+		}
+	}
 	return key
+}
+
+// closedHeapAxiom: references stored in the memory the function starts with
+// denote nil or objects that exist at entry (the initial heap is closed).
+func (c *Ctx) closedHeapAxiom(name, h string) {
+	if !c.declSet["fn:born"] {
+		return // the clock is declared by verifyFunc; data invariants / lemmas have no heap
+	}
+	now0 := nowHeap + "!0"
+	switch c.heapKind[name] {
+	case "ref":
+		c.decls = append(c.decls, fmt.Sprintf("(assert (forall ((r!c Int)) (! (and (>= (select %s r!c) 0) (or (= (select %s r!c) 0) (< (born (select %s r!c)) %s))) :pattern ((select %s r!c)))))", h, h, h, now0, h))
+	case "slice":
+		c.decls = append(c.decls, fmt.Sprintf("(assert (forall ((r!c Int)) (! (and (>= (sbase (select %s r!c)) 0) (or (= (sbase (select %s r!c)) 0) (< (born (sbase (select %s r!c))) %s))) :pattern ((select %s r!c)))))", h, h, h, now0, h))
+	case "refarr":
+		c.decls = append(c.decls, fmt.Sprintf("(assert (forall ((b!c Int) (k!c %s)) (! (and (>= (select (select %s b!c) k!c) 0) (or (= (select (select %s b!c) k!c) 0) (< (born (select (select %s b!c) k!c)) %s))) :pattern ((select (select %s b!c) k!c)))))", c.idxSort(), h, h, h, now0, h))
+	}
+}
+
+func isRefType(t types.Type) bool {
+	switch u := t.Underlying().(type) {
+	case *types.Pointer, *types.Map, *types.Chan, *types.Signature, *types.Interface:
+		return true
+	case *types.Basic:
+		return u.Kind() == types.UnsafePointer
+	}
+	return false
 }
 
 func (c *Ctx) heapNameObj(t types.Type) (string, string) {
@@ -158,7 +195,16 @@ func (c *Ctx) heapNameObj(t types.Type) (string, string) {
 // (Burstall-Bornat): H_<struct>.<field> : Ref -> field sort.
 func (c *Ctx) heapNameField(t types.Type, u *types.Struct, i int) (string, string) {
 	s := c.sortOf(t)
-	return "H_" + sanitize(s) + "." + sanitize(u.Field(i).Name()), fmt.Sprintf("(Array Int %s)", c.sortOf(u.Field(i).Type()))
+	name := "H_" + sanitize(s) + "." + sanitize(u.Field(i).Name())
+	ft := u.Field(i).Type()
+	if _, isPtr := ft.Underlying().(*types.Pointer); isPtr {
+		c.heapKind[name] = "ref"
+	} else if _, isMap := ft.Underlying().(*types.Map); isMap {
+		c.heapKind[name] = "ref"
+	} else if _, isSl := ft.Underlying().(*types.Slice); isSl {
+		c.heapKind[name] = "slice"
+	}
+	return name, fmt.Sprintf("(Array Int %s)", c.sortOf(ft))
 }
 
 // heapNamesOf lists the heap names an lvalue path lives in (for frames).
@@ -187,6 +233,11 @@ func (c *Ctx) heapNameOfPath(p *Path) string {
 
 func (c *Ctx) heapNameArr(elem types.Type) (string, string) {
 	s := c.sortOf(elem)
+	if _, isPtr := elem.Underlying().(*types.Pointer); isPtr {
+		// arrays of pointers are kept apart from arrays of integers (same SMT sort, different memory)
+		c.heapKind["HS_Ref"] = "refarr"
+		return "HS_Ref", fmt.Sprintf("(Array Int (Array %s %s))", c.idxSort(), s)
+	}
 	return "HS_" + sanitize(s), fmt.Sprintf("(Array Int (Array %s %s))", c.idxSort(), s)
 }
 
